@@ -7,7 +7,7 @@ export PATH=/venv/bin:$PATH
 cd "$WT" || exit 2
 rm -f tests/unit/test_*demo*.py tests/integration/test_*demo*.py 2>/dev/null
 /venv/bin/python -m pytest -q -p no:cacheprovider --timeout=900 -n 6 -ra > "$DEST/suite_with_change.log" 2>&1
-grep -E "^(FAILED|ERROR)" "$DEST/suite_with_change.log" | sed 's/ - .*//' | sort > "$DEST/suite_failures.txt"
+grep -E "^(FAILED|ERROR) (tests|cylc)/" "$DEST/suite_with_change.log" | sed 's/ - .*//' | sort > "$DEST/suite_failures.txt"
 comm -23 "$DEST/suite_failures.txt" /verif/seeded/clean_failures.txt | grep -v "tests/integration/tui/" > "$DEST/new_failures.txt"
 RES=$(tail -1 "$DEST/suite_with_change.log")
 python3 - "$TAG" "$RES" <<'EOF'
